@@ -675,6 +675,9 @@ def run(cx, tier='quick'):
     check_type_name_fn(cx, rep)
     from .c13 import include_own_scanners
     include_own_scanners(cx, facts, rep, ['::debug::'])
+    from .helpers import check_path_to_string, check_ident_or_index
+    check_path_to_string(cx, rep)
+    check_ident_or_index(cx, rep)
     rep.floor('SUM-DEBUG', 30, '(37 cases today)')
     rep.assumptions += ['core::fmt::DebugStruct/DebugTuple/DebugMap render the call sequence as documented, in compact and alternate mode',
                         '#[derive(Debug)] is specified as debug_struct(Name).field("f", &self.f)… / debug_tuple(Name).field(&self.0)… / write_str(Variant)',
